@@ -32,6 +32,7 @@ def dispatch (line : String) : String :=
   | "depcheck" :: args => C20.depcheck args
   | "flightlog" :: args => C14.flightlog args
   | "flightrun" :: args => C14.flightrun args
+  | "cacheops" :: args => C14.cacheops args
   | "gitfold" :: args => C03.gitfold args
   | "c03states" :: args => C03.states args
   | "c03wf" :: args => C03.wf args
